@@ -204,16 +204,16 @@ fn workload_scale(prop: &str, tier: Tier) -> u64 {
         "C07" => (10, 3),
         "C08" => (100, 40),
         "C09" => (200, 40),
-        "C10" => (150, 6),
-        "C11" => (300, 60),
-        "C12" => (30, 6),
-        "C13" => (25, 6),
+        "C10" => (150, 60),
+        "C11" => (300, 600),
+        "C12" => (30, 18),
+        "C13" => (25, 30),
         "C14" => (15, 6),
-        "C15" => (400, 6),
-        "C16" => (1000, 6),
+        "C15" => (400, 100),
+        "C16" => (1000, 500),
         "C17" => (6, 4),
-        "C18" => (400, 6),
-        "C19" => (100, 6),
+        "C18" => (400, 100),
+        "C19" => (100, 15),
         "C20" => (40, 4),
         _ => (1, 1),
     };
